@@ -34,4 +34,8 @@ CLAIMED["C13"] = dict(
   text="Random call sequences over the whole building/inspection alphabet on three device families against an explicit typestate automaton (must accept / must refuse / unspecified), plus exhaustive enumeration of all <=4/5-call sequences from a 12-call alphabet. Exploration + exhaustive small scope.",
   note="Calls the statement does not classify are 'unspecified' (either outcome accepted, the model follows the observed outcome).",
   technique="model-based property testing: generated call sequences vs a typestate automaton + bounded exhaustive enumeration")
+CLAIMED["C06"] = dict(
+  text="Generated programs (Ising and XY, local/global/multi-target, DMM, EOM idle periods, SLM mask, several channels per basis) sampled and compared at every nanosecond with an independent renderer (M4) built from the slot list: per-channel arrays, extension padding, per-atom per-basis views (all_local True/False). Exploration.",
+  note="Trusted: Waveform.samples and the slot list as the definition of the schedule; own nearest-trap lookup for DMM weights. Phase of the per-atom view compared only where exactly one non-zero pulse acts; padded tail of a channel left in EOM mode not compared per atom.",
+  technique="property-based testing: generated programs, differential against a reference renderer")
 NOT_YET = {}
